@@ -196,4 +196,42 @@ def stdText (f : Fields) : List Nat :=
     dec2 f.hour ++ [58] ++ dec2 f.min ++ [58] ++ dec2 (secOf f) ++ [32] ++
     [if f.off < 0 then 45 else 43] ++ dec2 (a / 3600) ++ dec2 (a / 60 % 60)
 
+/-! ### the wall-clock fields of a zone-aware value (what the writer shows) -/
+
+/-- the standard form up to and including the space before the zone -/
+def stdHead (f : Fields) : List Nat :=
+  let wd := match f.weekday with | some w => dayNamesCap.getD w.toNat [] | none => []
+  let dd := if f.day < 10 then [48 + f.day] else dec2 f.day
+  wd ++ [44, 32] ++ dd ++ [32] ++ monthNamesCap.getD (f.month - 1) [] ++ [32] ++
+    dec2 (f.year.toNat / 100) ++ dec2 (f.year.toNat % 100) ++ [32] ++
+    dec2 f.hour ++ [58] ++ dec2 f.min ++ [58] ++ dec2 (secOf f) ++ [32]
+
+/-- how `write_rfc2822` shows an offset: sign of the offset itself, then hours and minutes of the
+offset ROUNDED to the nearest minute (ties away from zero) — for a whole-minute offset simply
+`±HHMM`; an offset with seconds such as −00:00:20 is shown as `-0000`, +23:59:40 as `+2400` -/
+def shownZone (off : Int) : List Nat :=
+  let m := (off.natAbs + 30) / 60
+  [if off < 0 then 45 else 43] ++ dec2 (m / 60) ++ dec2 (m % 60)
+
+/-- the weekday (as a `Weekday`) of a day number -/
+def weekdayAt (n : Int) : Option Weekday := weekdays[(weekdayOf n).toNat]?
+
+/-- the fields of the wall-clock reading "day `o` of year `Y`, second `sod` of the day, nanosecond
+field `frac`" at offset `off`: a leap-second representation shows as one second more (60 on :59) -/
+def wallFields (Y : Int) (o : Nat) (sod frac off : Int) : Fields :=
+  ⟨weekdayAt (dayNumYo Y o), dayOfYo Y o, monthOfYo Y o, Y, (sod / 3600).toNat, (sod / 60 % 60).toNat,
+   some ((sod % 60).toNat + (if frac ≥ 1000000000 then 1 else 0)), off⟩
+
+/-- `(Y, o)` is the wall-clock date of `z`: the day with day number `epoch day + ⌊(instant + offset) / 86400⌋` -/
+def WallDate (z : Zoned) (Y : Int) (o : Nat) : Prop :=
+  1 ≤ o ∧ o ≤ yearLen Y ∧ dayNumYo Y o = EPOCH_DAY + wallSecs z / 86400
+
+/-- the wall-clock fields of `z`, given its wall-clock date -/
+def fieldsOf (z : Zoned) (Y : Int) (o : Nat) : Fields :=
+  wallFields Y o (wallSecs z % 86400) z.utc.time.frac z.off
+
+/-- `z` to whole seconds, a leap second kept -/
+def truncSecs (z : Zoned) : Zoned :=
+  ⟨⟨z.utc.date, ⟨z.utc.time.secs, if z.utc.time.frac ≥ 1000000000 then 1000000000 else 0⟩⟩, z.off⟩
+
 end Chrono.Spec.Rfc2822
